@@ -1147,3 +1147,111 @@ Proof.
       * rewrite <- R1. apply (mi_nd_order s MI).
       * congruence.
 Qed.
+
+Definition l_ins (l : iloc) (ord : list N) (idx : N) : option (list N) :=
+  match l with
+  | LEnd => Some (ord ++ [idx])
+  | LIndex p => Some (insert_at ord (Nat.min (N.to_nat p) (length ord)) idx)
+  | LFromBack p => Some (insert_at ord (length ord - N.to_nat p) idx)
+  | LAfter r => match posN r ord with Some p => Some (insert_at ord (S p) idx) | None => None end
+  | LBefore r => match posN r ord with Some p => Some (insert_at ord p idx) | None => None end
+  end.
+
+Lemma l_ins_In l ord idx ord' : l_ins l ord idx = Some ord' -> forall j, In j ord' <-> j = idx \/ In j ord.
+Proof.
+  destruct l as [|p|p|r|r]; cbn.
+  - intros [= <-]; intros j. rewrite in_app_iff. cbn. intuition congruence.
+  - intros [= <-]; intros j. rewrite insert_at_In. tauto.
+  - intros [= <-]; intros j. rewrite insert_at_In. tauto.
+  - destruct (posN r ord); try discriminate; intros [= <-]; intros j; rewrite insert_at_In; tauto.
+  - destruct (posN r ord); try discriminate; intros [= <-]; intros j; rewrite insert_at_In; tauto.
+Qed.
+Lemma l_ins_NoDup l ord idx ord' : l_ins l ord idx = Some ord' -> NoDup ord -> ~ In idx ord -> NoDup ord'.
+Proof.
+  intros Hl Hn Hi. destruct l as [|p|p|r|r]; cbn in Hl;
+    try (injection Hl as <-; first [apply insert_at_NoDup; assumption | idtac]).
+  - rewrite <- (insert_at_end ord (length ord) idx) by lia. apply insert_at_NoDup; assumption.
+  - destruct (posN r ord); [|discriminate]. injection Hl as <-. apply insert_at_NoDup; assumption.
+  - destruct (posN r ord); [|discriminate]. injection Hl as <-. apply insert_at_NoDup; assumption.
+Qed.
+Lemma l_ins_length l ord idx ord' : l_ins l ord idx = Some ord' -> length ord' = S (length ord).
+Proof.
+  destruct l as [|p|p|r|r]; cbn.
+  - intros [= <-]. rewrite app_length. cbn. lia.
+  - intros [= <-]. apply insert_at_length.
+  - intros [= <-]. apply insert_at_length.
+  - destruct (posN r ord); try discriminate; intros [= <-]; apply insert_at_length.
+  - destruct (posN r ord); try discriminate; intros [= <-]; apply insert_at_length.
+Qed.
+
+Lemma nthN_app_l {A} (l : list A) x (j : N) d : (N.to_nat j < length l)%nat -> nthN (l ++ [x]) j d = nthN l j d.
+Proof. intros Hl. unfold nthN. apply app_nth1. exact Hl. Qed.
+Lemma nthN_app_new {A} (l : list A) x d : nthN (l ++ [x]) (N.of_nat (length l)) d = x.
+Proof. unfold nthN. rewrite Nat2N.id, app_nth2, Nat.sub_diag by lia. reflexivity. Qed.
+
+(** MultiState::insert: a fresh or recycled slot, reset to the default member, put into the
+    ordering at the requested place *)
+Lemma ms_insert_spec m l m1 idx : CoreInv m -> ms_insert m l = Some (m1, idx) ->
+  ~ In idx (ms_order m)
+  /\ l_ins l (ms_order m) idx = Some (ms_order m1)
+  /\ CoreInv m1
+  /\ nthN (ms_members m1) idx member_default = member_default
+  /\ (forall j, In j (ms_order m) -> nthN (ms_members m1) j member_default = nthN (ms_members m) j member_default)
+  /\ ms_align m1 = ms_align m /\ ms_orphans m1 = ms_orphans m
+  /\ ms_zombie_lines m1 = ms_zombie_lines m /\ ms_target m1 = ms_target m.
+Proof.
+  intros CI Hi. destruct CI as [A B C D E F]. unfold ms_insert in Hi.
+  destruct (ms_free m) as [|i fr] eqn:Hfree.
+  - (* fresh slot *)
+    set (idx0 := N.of_nat (length (ms_members m))) in *.
+    set (m0 := set_ms_members m (ms_members m ++ [member_default])) in *.
+    assert (Hfresh : ~ In idx0 (ms_order m)).
+    { intros Hin. specialize (D idx0 (or_introl Hin)). unfold idx0 in D. rewrite Nat2N.id in D. lia. }
+    assert (Hord : exists ord', l_ins l (ms_order m) idx0 = Some ord' /\ m1 = set_ms_order m0 ord' /\ idx = idx0).
+    { destruct l as [|p|p|r|r]; cbn in Hi |- *.
+      1-3: injection Hi as <- <-; eexists; repeat split.
+      all: destruct (posN r (ms_order m)); try discriminate; injection Hi as <- <-; eexists; repeat split. }
+    destruct Hord as (ord' & Hl & -> & ->).
+    split; [exact Hfresh|]. split; [exact Hl|].
+    pose proof (l_ins_In _ _ _ _ Hl) as HIn.
+    split; [|split; [|split]]; cbn [ms_members ms_order ms_free set_ms_order set_ms_members m0
+                                    ms_align ms_orphans ms_zombie_lines ms_target]; auto.
+    + constructor; cbn [ms_members ms_order ms_free set_ms_order set_ms_members m0].
+      * eapply l_ins_NoDup; eauto.
+      * rewrite Hfree. constructor.
+      * rewrite Hfree. auto.
+      * rewrite Hfree, app_length. cbn. intros j [Hj|[]]. apply HIn in Hj. destruct Hj as [->|Hj].
+        -- unfold idx0. rewrite Nat2N.id. lia.
+        -- specialize (D j (or_introl Hj)). lia.
+      * rewrite app_length, (l_ins_length _ _ _ _ Hl), E, Hfree. cbn. lia.
+      * rewrite Hfree. intros j [].
+    + apply nthN_app_new.
+    + intros j Hj. apply nthN_app_l. apply D. auto.
+  - (* recycled slot *)
+    set (m0 := set_ms_free (set_ms_members m (updN (ms_members m) (N.to_nat i) (fun _ => member_default))) fr) in *.
+    assert (Hif : In i (ms_free m)) by (rewrite Hfree; left; reflexivity).
+    assert (Hfresh : ~ In i (ms_order m)) by (intros Hin; exact (C i Hin Hif)).
+    assert (Hord : exists ord', l_ins l (ms_order m) i = Some ord' /\ m1 = set_ms_order m0 ord' /\ idx = i).
+    { destruct l as [|p|p|r|r]; cbn in Hi |- *.
+      1-3: injection Hi as <- <-; eexists; repeat split.
+      all: destruct (posN r (ms_order m)); try discriminate; injection Hi as <- <-; eexists; repeat split. }
+    destruct Hord as (ord' & Hl & -> & ->).
+    split; [exact Hfresh|]. split; [exact Hl|].
+    pose proof (l_ins_In _ _ _ _ Hl) as HIn.
+    rewrite Hfree in B. inversion B as [|? ? Hifr Hfr]; subst.
+    assert (Hil : (N.to_nat i < length (ms_members m))%nat) by (apply D; auto).
+    split; [|split; [|split]]; cbn [ms_members ms_order ms_free set_ms_order set_ms_members set_ms_free m0
+                                    ms_align ms_orphans ms_zombie_lines ms_target]; auto.
+    + constructor; cbn [ms_members ms_order ms_free set_ms_order set_ms_members set_ms_free m0].
+      * eapply l_ins_NoDup; eauto.
+      * exact Hfr.
+      * intros j Hj Hjf. apply HIn in Hj. destruct Hj as [->|Hj]; [tauto|].
+        apply (C j Hj). rewrite Hfree. right. exact Hjf.
+      * rewrite updN_length. intros j [Hj|Hj].
+        -- apply HIn in Hj. destruct Hj as [->|Hj]; [exact Hil | apply D; auto].
+        -- apply D. right. rewrite Hfree. right. exact Hj.
+      * rewrite updN_length, (l_ins_length _ _ _ _ Hl), E, Hfree. cbn. lia.
+      * intros j Hj. rewrite nthN_updN_neq; [|intros ->; tauto]. apply F. rewrite Hfree. right. exact Hj.
+    + apply nthN_updN_eq. exact Hil.
+    + intros j Hj. apply nthN_updN_neq. intros ->. tauto.
+Qed.
